@@ -38,6 +38,19 @@ def run(ctx, model_ok):
         ctx.cov["rule"] += ("; selfint: segments_intersect_facets (float64 and float32 call, adversarial exact rows + random rows) and get_intersecting_triangles "
                             "(small meshes incl. subdivided box faces, needle-faced boxes, Stella octangula, far-centroid needles; scales 1e-9..1e9, offsets up to 1e7 sizes, r / r_factor / eps varied) "
                             "vs Model/MeshIntersect.lean (normalisation in float64, then emulated float32): verdicts, index sets exact, query radius bit for bit")
+    if ctx.driver_ok:
+        from corr import meshperm_family as _mp
+        sp = _mp.run_stream(ctx, ctx.scale(30, 1500))
+        ctx.cov["evaluations"] += sp["rows_reorient"] + sp["rows_facesubsets"] + sp["rows_field"]
+        ctx.cov["traces_validated_against_impl"] += sp["rows_reorient"] + sp["rows_facesubsets"] + sp["rows_field"]
+        ctx.cov["distinct_nontrivial"] += sp["distinct"]
+        ctx.cov["samples"] += sp.pop("samples")
+        ctx.cov["correspondence_meshperm"] = sp
+        ctx.cov["rule"] += ("; meshperm: the chain vertices+faces -> fix_trimesh_orientation (seed verdicts computed by the model's isFacetInwards in IEEE double) -> vertices[faces] "
+                            "-> BHJM_magnet_trimesh on SIX VARIANTS of each mesh (as given, faces permuted, windings rotated, windings flipped, vertices renumbered, all together; "
+                            "cubes, tetrahedra, octahedra, a genus-1 ring, hulls, an L prism, two bodies apart / touching in a vertex): mask, faces, mesh bit for bit, "
+                            "get_disconnected_faces_subsets' FACE subsets exact and in order, inside verdict exact, field to 1e-7 of the polarization scale; across the variants (real code) "
+                            "the reoriented face sets and the fields are compared")
     budget = 4 if len(ctx.broken) else 1
     fails, ost = oracle.sweep(ctx, ctx.scale(16, 600) * budget)
     ctx.failing += fails
@@ -58,16 +71,23 @@ def run(ctx, model_ok):
                             "bit for bit but no theorem is about it: needle facets of aspect >~ 1e3 in general position can still be flagged (plane-distance noise of coplanar neighbours above eps)",
                             "check_open: 'open' is the code's own edge count (open_iff_edge_count_ne_2 unfolds the model); its reading as 'number of faces containing both end points' holds for "
                             "faces with three distinct indices only (edge_count_eq_faces_containing); a face (a, a, b) counts its edge twice",
-                            "get_disconnected_faces_subsets returns FACE subsets (np.isin(...).all(axis=1)); model and theorems are about the vertex sets subsets_inds, the final face selection "
-                            "is compared by the mesh stream only",
                             "orientation: propagation_consistent assumes that some consistent choice of flips exists; that every closed non-self-intersecting embedded mesh has one is not proved; "
-                            "the seed verdict is a free parameter of inwardsMask (the inwards stream hands the real is_facet_inwards verdicts to the model): no theorem says the seed verdict is "
-                            "right, so 'after reorientation all faces point outwards' is not shown",
+                            "the seed verdict is a parameter: reorient_invariant_under_input_flips / reorient_idempotent (same faces, same mesh for every subset of input faces given flipped) hold for "
+                            "edge-connected orientable meshes UNDER THE HYPOTHESIS that the real seed test answers geometrically (flipping the seed face flips its verdict) — no theorem says that "
+                            "is_facet_inwards does, nor that its verdict is right, so 'after reorientation all faces point outwards' is not shown; meshes of several edge-components (bodies apart or "
+                            "touching in a vertex) get one seed test per component: winding invariance for them is compared by the meshperm stream only; invariance of the sweep under ROTATING the "
+                            "windings (a,b,c)->(b,c,a) has no theorem (the returned faces are then rotated too; the sheets are rotation invariant, trimesh_sheets_rotation; meshperm stream)",
                             "inside test: theorem only for a mesh that is ONE tetrahedron, observers strictly inside, generic ray (tetra_interior_found_by_ray_test_partial); nothing for observers "
                             "outside nor for any other closed mesh (boxes, prisms, hulls, unions: oracle only)",
                             "all real-arithmetic theorems (maskInsideTrimesh, isFacetInwards, segFacet, getIntersectingTriangles) evaluate zero-area facets through x/0 = 0 where the float code "
                             "produces NaN; the getIntersectingTriangles theorems are about rounding = id, which neither the driver (float32 only) nor the real function (always astype(float32)) executes",
-                            "'the field does not depend on face order / winding / vertex numbering': no theorem, permutation oracle only"]
+                            "field vs face order / winding / vertex numbering: proved — face order for the whole BHJM_magnet_trimesh incl. the inside test (trimesh_field_face_perm), vertex numbering "
+                            "for the whole chain at any carrier (vertex_renumbering: identical (n,3,3) array), input flips via reorientation (previous item), the Triangle kernel under rotation "
+                            "(triangle_field_cyclic) and exchange of two vertices (triangle_field_flip).  NOT shown: triangle_field_flip for an observer within the on_edge tolerance of an edge — "
+                            "false of the code (the substitute value log(-a/c)/l changes sign with the edge direction: triangle_edge_on_edge_changes_sign); the inside test under a rotation of a "
+                            "face's vertices: its crossing count is winding-free (crossing_count_winding_invariant) but the touch test |proj| < 1e-7 is measured from the face's LAST vertex, so an observer "
+                            "within ~1e-7 (relative) of a face plane changes sides with the vertex order of that face (reproduced on the real class: unit tetrahedron, observer 5e-8 outside the face "
+                            "x+y+z=1 near (1,0,0)); outside that layer: meshperm stream"]
 
 
 def replay(ctx, payload):
